@@ -46,6 +46,15 @@ var cur *vrun
 
 var errPeer = errors.New("simulated peer failure")
 
+// errPeerTimeout is a failure that describes itself as a timeout (net.Error style).
+type errPeerTimeoutT struct{}
+
+func (errPeerTimeoutT) Error() string   { return "simulated peer failure: i/o timeout" }
+func (errPeerTimeoutT) Timeout() bool   { return true }
+func (errPeerTimeoutT) Temporary() bool { return true }
+
+var errPeerTimeout error = errPeerTimeoutT{}
+
 type vrun struct {
 	sc           *bw.Scenario
 	va           *bw.Variant
@@ -219,8 +228,11 @@ func (f fetcher) FetchSourcePackage(ctx context.Context, sourceType string, u *u
 		return paths[a] < paths[b]
 	})
 	limit := len(paths)
-	if c.Fault == "torn" {
+	if c.Fault == "torn" || c.Fault == "torn-timeout" {
 		limit = len(paths) / 2
+		if limit == 0 && len(paths) > 0 {
+			limit = 1
+		}
 	}
 	for _, pa := range paths[:limit] {
 		fl := raw[pa]
@@ -285,6 +297,11 @@ func (f fetcher) FetchSourcePackage(ctx context.Context, sourceType string, u *u
 	if c.Fault == "torn" {
 		c.Result = "torn"
 		return resp, errPeer
+	}
+	if c.Fault == "torn-timeout" {
+		// part of the package was written, then the transfer timed out
+		c.Result = "torn-timeout"
+		return resp, errPeerTimeout
 	}
 	if c.Fault == "cancel-after" {
 		// the caller cancels right after this download completed: nothing is in flight to report it
@@ -567,6 +584,19 @@ func (r *vrun) hostileParse(kind, s string) {
 
 // ---- tracer ----
 
+// startCtx is what a start callback hands back as the context of the request. In the
+// "foreign-ctx" variant it carries another tracer (as a context that went through a
+// second instrumentation layer would): the outcome still belongs to the tracer that saw
+// the start.
+func (r *vrun) startCtx(ctx context.Context) context.Context {
+	if r.va.Tracer != "foreign-ctx" {
+		return ctx
+	}
+	r.out.Probe("start-callback-returned-foreign-context")
+	other := &sourcebundle.BuildTracer{}
+	return other.OnContext(ctx)
+}
+
 func (r *vrun) tracer() *sourcebundle.BuildTracer {
 	ev := func(kind, key string) {
 		r.trace = append(r.trace, TraceEv{Seq: r.log.Steps + 1, Task: r.task(), Kind: kind, Key: key})
@@ -578,7 +608,7 @@ func (r *vrun) tracer() *sourcebundle.BuildTracer {
 	tr := &sourcebundle.BuildTracer{
 		RegistryPackageVersionsStart: func(ctx context.Context, p regaddr.ModulePackage) context.Context {
 			ev("versions-start", p.String())
-			return ctx
+			return r.startCtx(ctx)
 		},
 		RegistryPackageVersionsSuccess: func(ctx context.Context, p regaddr.ModulePackage, vs versions.List) {
 			ev("versions-success", p.String())
@@ -591,7 +621,7 @@ func (r *vrun) tracer() *sourcebundle.BuildTracer {
 		},
 		RegistryPackageSourceStart: func(ctx context.Context, p regaddr.ModulePackage, v versions.Version) context.Context {
 			ev("source-start", p.String()+"@"+v.String())
-			return ctx
+			return r.startCtx(ctx)
 		},
 		RegistryPackageSourceSuccess: func(ctx context.Context, p regaddr.ModulePackage, v versions.Version, s sourceaddrs.RemoteSource) {
 			ev("source-success", p.String()+"@"+v.String())
@@ -604,7 +634,7 @@ func (r *vrun) tracer() *sourcebundle.BuildTracer {
 		},
 		RemotePackageDownloadStart: func(ctx context.Context, p sourceaddrs.RemotePackage) context.Context {
 			ev("download-start", p.String())
-			return ctx
+			return r.startCtx(ctx)
 		},
 		RemotePackageDownloadSuccess: func(ctx context.Context, p sourceaddrs.RemotePackage) {
 			ev("download-success", p.String())
